@@ -1,10 +1,10 @@
-//! C19 — fixed reproductions of the listed findings K1-K6, K8, K9 (each fails
+//! C19 — fixed reproductions of the listed findings K1-K6, K8-K11 (each fails
 //! with the finding's exact signature while the finding is there; K7 — a
 //! policy allow statement's `max_classification` constraint is not enforced —
 //! is only reported, the property text does not pin it).
 
 use super::world::*;
-use super::{Fail, K1, K10, K2, K3, K4, K5, K6, K8, K9, fail, h};
+use super::{Fail, K1, K10, K11, K2, K3, K4, K5, K6, K8, K9, fail, h};
 use crate::common::*;
 use anda_cognitive_nexus::ElementId;
 use anda_cognitive_nexus::governance::rows::{AuthorityConstraints, AuthorityScope};
@@ -16,7 +16,7 @@ use vf_core::CaseCtx;
 use super::model::Grantee;
 
 pub fn cases() -> Vec<u8> {
-    vec![1, 2, 3, 4, 5, 6, 7, 9, 10]
+    vec![1, 2, 3, 4, 5, 6, 7, 9, 10, 11]
 }
 
 const READER: &str = "kip:principal:reader";
@@ -249,6 +249,36 @@ pub fn run(case: &u8, ctx: &mut CaseCtx) -> Result<(), Fail> {
             if seen == json!([]) && bound.as_deref() == Some(pid.as_str()) {
                 ctx.nontrivial = true;
                 return fail(K10, format!("the writer p0 cannot read the proposition {pid} (FIND over its tuple answers []); ENSURE PROPOSITION ?n over the same tuple answers receipt status {status} with ?n bound to {pid}"));
+            }
+            Ok(())
+        }
+        11 => {
+            // lead p0: read grant (delegation allowed); p1: only a delegation of `read` from p0 that may be
+            // re-delegated; p2: only the re-delegation p1 made (parent = the first); then the host suspends p1
+            let env = Env::new("c19").map_err(|e| Fail { sig: "c19:script-refused-or-malformed-answer".into(), msg: e })?;
+            let w = World { env, id_of: Default::default(), label_of: Default::default(), grant_rows: vec![], deleg_rows: vec![], txs: 0 };
+            for p in [0u8, 1, 2] {
+                h(register_principal(&w, &principal_id(p)))?;
+            }
+            h(w.env.exec_ok(r#"CREATE CONCEPT ?v { TYPE "Person" NAME "alice" }"#, Json::Null))?;
+            let open = AuthorityConstraints { export: true, ..Default::default() };
+            h(create_grant_raw(&w, &Grantee::Principal(0), vec!["read".into()], AuthorityScope::default(), Default::default(), open.clone(), true))?;
+            let first = h(create_delegation_raw(&w, 0, 1, vec!["read".into()], AuthorityScope::default(), Default::default(), open.clone(), None, true))?;
+            h(create_delegation_raw(&w, 1, 2, vec!["read".into()], AuthorityScope::default(), Default::default(), open, Some(first), false))?;
+            let q = "FIND(?c.name) WHERE { ?c CONCEPT {} }";
+            let run = |p: u8| -> String {
+                let r = w.env.run(exec(&w.session(p), q, Json::Null));
+                match body_of(&r) {
+                    Ok(b) => b.to_string(),
+                    Err(_) => error_code(&r).unwrap_or_default(),
+                }
+            };
+            let before = (run(1), run(2));
+            h(set_status(&w, 1, 1))?;
+            let after = (run(1), run(2));
+            if after.0 == "NotAuthorized" && after.1 != "NotAuthorized" {
+                ctx.nontrivial = true;
+                return fail(K11, format!("`{q}`: chain p0 (read grant) -> p1 (may re-delegate) -> p2 (parent = the first delegation); before the host suspends the intermediate delegator p1 -> p1 {}, re-delegate p2 {}; after it -> p1 {}, re-delegate p2 {} (p2's only authority is the re-delegation p1 made)", before.0, before.1, after.0, after.1));
             }
             Ok(())
         }
